@@ -113,7 +113,8 @@ pub fn run(ctx: &Ctx) {
         }
     } else {
         let fixed = ["Img1", "My Image", "A/B", "A#20", "A#", "é", "", "a(b", "a)b", "x%y", "R", "Im{1}", "tab\there", "nl\nx", "nul\0x", "日本", "A.B-C_D", "<<", "[x]", "F+1",
-                     "#", "##", "#2", "A#2", "a b c", " ", "/", "%", "x\ry", "x\u{c}y", "\u{7f}", "\u{1}\u{1f}", "A#ZZ", "A#+5", "trailing ", " leading", "a#20b#", "()<>[]{}/%#", "Fm0+x", "\u{80}", "a\u{ff}b", "😀"];
+                     "#", "##", "#2", "A#2", "a b c", " ", "/", "%", "x\ry", "x\u{c}y", "\u{7f}", "\u{1}\u{1f}", "A#ZZ", "A#+5", "trailing ", " leading", "a#20b#", "()<>[]{}/%#", "Fm0+x", "\u{80}", "a\u{ff}b", "😀",
+                     "é中1", "caf\u{e9}", "\u{7ff}", "\u{800}", "\u{d7ff}", "\u{e000}", "\u{ffff}", "\u{10000}", "\u{10ffff}", "Ã©", "é é", "日#本", "😀/x"];
         for n in fixed {
             emit(&mut out, "image", n, "fixed");
             emit(&mut out, "form", n, "fixed");
@@ -123,6 +124,16 @@ pub fn run(ctx: &Ctx) {
             let n = format!("N{}m", c as char);
             emit(&mut out, "image", &n, "ascii_sweep");
             emit(&mut out, "form", &n, "ascii_sweep");
+        }
+        // names with 2-, 3- and 4-byte UTF-8 sequences (every Rust String is valid UTF-8: a name that is not
+        // cannot be passed to the API; bytes that are not UTF-8 reach the reader only from a file: C09 channel lex)
+        let mut ru = Rng::new(ctx.seed ^ 0x07F8);
+        let nu = if ctx.thorough() { 300 } else { 60 };
+        for k in 2..=4usize {
+            for i in 0..nu {
+                let name = gen::gen_utf8_name(&mut ru, k);
+                emit(&mut out, if i % 2 == 0 { "image" } else { "form" }, &name, &format!("utf8_{k}byte"));
+            }
         }
         let mut r = Rng::new(ctx.seed ^ 0xC30);
         let n = if ctx.thorough() { 1500 } else { 250 };
@@ -252,7 +263,7 @@ fn run_pages(ctx: &Ctx) {
     }
     let mut r = Rng::new(ctx.seed ^ 0x9A6E5);
     let reg_name = |r: &mut Rng| -> String {
-        // regular, validator-accepted ASCII names (form XObjects are gated; non-ASCII is the known finding C30-name-nonascii)
+        // regular, validator-accepted ASCII names (form XObjects are gated)
         loop {
             let n = gen::gen_regular_name(r);
             if !n.is_empty() && n.bytes().all(|b| (0x21..0x7f).contains(&b) && !b"/<>[](){}%#".contains(&b)) {
@@ -278,13 +289,22 @@ fn run_pages(ctx: &Ctx) {
         }
     };
     let form_ops = |r: &mut Rng| -> Vec<u8> { format!("0.{} 0 0 rg 0 0 {} {} re f", r.range(1, 9), r.range(1, 9), r.range(1, 9)).into_bytes() };
+    // non-ASCII names (2-, 3-, 4-byte sequences) made of validator-accepted chars: usable for images and form XObjects
+    let utf8_name = |r: &mut Rng| -> String {
+        let mut cs: Vec<char> = reg_name(r).chars().collect();
+        let k = r.range(2, 4) as usize;
+        let pos = r.below(cs.len() as u64 + 1) as usize;
+        cs.insert(pos, gen::gen_utf8_char(r, k));
+        cs.into_iter().collect()
+    };
     let n = if ctx.thorough() { 600 } else { 120 };
     for i in 0..n {
         let np = r.range(2, 4) as usize;
         let images_only = matches!(i % 6, 0 | 1 | 2 | 4);
-        let name = if i % 5 == 0 { "Im1".to_string() } else if images_only && r.chance(1, 2) { irr_name(&mut r) } else { reg_name(&mut r) };
+        let nonascii = (i / 6) % 2 == 1;
+        let name = if nonascii { utf8_name(&mut r) } else if i % 5 == 0 { "Im1".to_string() } else if images_only && r.chance(1, 2) { irr_name(&mut r) } else { reg_name(&mut r) };
         let name2 = loop {
-            let x = if images_only && r.chance(1, 2) { irr_name(&mut r) } else { reg_name(&mut r) };
+            let x = if nonascii && r.chance(1, 2) { utf8_name(&mut r) } else if images_only && r.chance(1, 2) { irr_name(&mut r) } else { reg_name(&mut r) };
             if x != name {
                 break x;
             }
@@ -341,7 +361,8 @@ fn run_pages(ctx: &Ctx) {
                 }
             }
         }
-        emit_pages(&mut out, &pages, class);
+        let class = if nonascii { format!("{class}_utf8name") } else { class.to_string() };
+        emit_pages(&mut out, &pages, &class);
     }
     out.finish("pages");
 }
